@@ -6,7 +6,7 @@
    is decided by the correspondence and the falsifier over the indicator engine. *)
 From Coq Require Import ZArith List Bool Lia.
 From Hexital Require Import Base.Prelude Base.Num Model.Manager Model.Candle Model.Readings Model.Engine
-  Proofs.CollapseProofs Proofs.FillProofs Proofs.CausalProofs Proofs.TrimProofs Proofs.TrimCompose.
+  Proofs.CollapseProofs Proofs.FillProofs Proofs.CausalProofs Proofs.TrimProofs Proofs.TrimCompose Proofs.FillCompose Proofs.FillEngine Proofs.FillTrim.
 Import ListNotations.
 Local Open Scope Z_scope.
 
@@ -85,3 +85,12 @@ Theorem C15_window_schedule_independent :
   mgr_append O (tf_life_cfg tf ls) D ys = tasks O (tf_life_cfg tf ls) (xs ++ ys).
 Proof. intros O tf ls xs ys D Htf Hls Hs HD. eapply manager_lifespan_incremental; eassumption. Qed.
 Print Assumptions C15_window_schedule_independent.
+
+(* ... and with gap filling as well: timeframe, timeframe_fill and lifespan together *)
+Theorem C15_window_schedule_independent_with_fill :
+  forall (O : NumOps) (tf ls : Z) (xs ys D : list (cd (payload O))),
+  0 < tf -> 0 <= ls -> sorted (payload O) (xs ++ ys) ->
+  tasks O (tf_fill_life_cfg tf ls) xs = Ok D ->
+  mgr_append O (tf_fill_life_cfg tf ls) D ys = tasks O (tf_fill_life_cfg tf ls) (xs ++ ys).
+Proof. intros O tf ls xs ys D Htf Hls Hs HD. eapply manager_fill_lifespan_incremental; eassumption. Qed.
+Print Assumptions C15_window_schedule_independent_with_fill.
